@@ -517,6 +517,7 @@ def _bs_real(ip, st, f, args, kwargs):
 class bs_start:
     self_shape = BASESCREEN
     call_real = staticmethod(_bs_real)
+    no_xcheck = "call_real models StoppingContext(self) (the return value, a context manager) as None"
 
     def ensures(old, s, a, result):
         yield "started-afterwards", s._started == True  # noqa: E712
